@@ -212,7 +212,7 @@ def _raised_inside_dump(e):
 def _fail_exc(col, case, stage, e, files):
     col.outcome('FAIL:%s-raises' % stage)
     col.fail(case, '%s the instance raised %s: %s' % (stage, type(e).__name__, str(e)[:300]),
-             {'stage': stage, 'exception': type(e).__name__, 'message': str(e)[:500], 'files': files},
+             _plain({'stage': stage, 'exception': type(e).__name__, 'message': str(e)[:500], 'files': files}),
              sig='raises:%s:%s' % (type(e).__name__, _shape_of_message(e)))
     return 'fail'
 
@@ -347,7 +347,7 @@ def judge(col, case, workdir=None):
     if errors:
         col.outcome('FAIL:load-reports-errors')
         col.fail(case, 'loading the written files reported errors: %s' % '; '.join(str(e)[:200] for e in errors[:3]),
-                 {'errors': [str(e)[:300] for e in errors], 'files': files},
+                 _plain({'errors': [str(e)[:300] for e in errors], 'files': files}),
                  sig='load-errors:%s' % type(errors[0]).__name__)
         return 'fail'
     try:
@@ -355,7 +355,7 @@ def judge(col, case, workdir=None):
     except Exception as e:
         col.outcome('FAIL:loaded-unresolvable')
         col.fail(case, 'the loaded description cannot be resolved: %s: %s' % (type(e).__name__, str(e)[:300]),
-                 {'exception': type(e).__name__, 'message': str(e)[:500], 'files': files},
+                 _plain({'exception': type(e).__name__, 'message': str(e)[:500], 'files': files}),
                  sig='loaded-unresolvable:%s' % type(e).__name__)
         return 'fail'
     diffs = list(D.diff(want, got))
